@@ -112,6 +112,14 @@ def go_value(obj, r: L.Ty):
     return z3.SignExt(W - obj.bits, t) if obj.signed else z3.ZeroExt(W - obj.bits, t)
 
 
+def _vname(E, msg) -> str:
+    """name prefix of the symbolic value of ONE run: unique per message and per run, so that the preconditions assumed for one run
+    (e.g. in-range values when decoding) never constrain another run of the same proof path whose fields happen to have the same
+    names (they did until wave 4 of the seeded changes exposed it: S1's encode was only proved for in-range x after S0's decode)"""
+    E.run_n = getattr(E, "run_n", 0) + 1              # reset by Engine.explore at the start of every path
+    return "v%d<%s>" % (E.run_n, "".join(L._path(msg)))
+
+
 def _mk(E):
     def mk(name):
         if E.concrete is not None:
@@ -161,7 +169,7 @@ def run_encode(E: EN.Engine, prog: Program, pkg, msg: L.Message, label="encode")
     if tn not in pkg.types:
         raise GoUnsupported("generated file has no type %s" % tn)
     leaves: list = []
-    v = L.fresh_value(msg, "v", leaves, _mk(E))
+    v = L.fresh_value(msg, _vname(E, msg), leaves, _mk(E))
     for name, term, r in leaves:
         if isinstance(r, L.Bool):
             E.assume(L.in_range(term, r))
@@ -189,7 +197,7 @@ def run_decode(E: EN.Engine, prog: Program, pkg, msg: L.Message, label="decode",
         raise GoUnsupported("generated file has no type %s" % tn)
     src = sender or msg
     leaves: list = []
-    v = L.fresh_value(src, "v", leaves, _mk(E))
+    v = L.fresh_value(src, _vname(E, src), leaves, _mk(E))
     for name, term, r in leaves:
         E.assume(L.in_range(term, r))
     E.cover(label + "/requires")
